@@ -27,18 +27,18 @@ const prop = "C02"
 type Case struct {
 	// Exactly one of Circ / Prog is used: a hand-made circuit or the index
 	// of a compiled MPCL program.
-	Circ    *gen.Circ `json:"circ,omitempty"`
-	Prog    string    `json:"prog,omitempty"`
+	Circ *gen.Circ `json:"circ,omitempty"`
+	Prog string    `json:"prog,omitempty"`
 	// Gen is a generated two-party MPCL program (compiled with the default
 	// parameters); the oracle is still the gate-level evaluation of the
 	// compiled circuit.
-	Gen *mpcl.Prog `json:"gen,omitempty"`
-	X       string    `json:"x"` // garbler input bits, LSB first
-	Y       string    `json:"y"` // evaluator input bits
-	OT      string    `json:"ot"`
-	Seed    uint64    `json:"seed"`
-	FragsGE []int     `json:"frags_ge"` // evaluator's read fragmentation
-	FragsEG []int     `json:"frags_eg"`
+	Gen     *mpcl.Prog `json:"gen,omitempty"`
+	X       string     `json:"x"` // garbler input bits, LSB first
+	Y       string     `json:"y"` // evaluator input bits
+	OT      string     `json:"ot"`
+	Seed    uint64     `json:"seed"`
+	FragsGE []int      `json:"frags_ge"` // evaluator's read fragmentation
+	FragsEG []int      `json:"frags_eg"`
 }
 
 // Compiled programs: name -> source.  Shapes the hand-made generator does not
@@ -133,6 +133,11 @@ func drawWide(t *rapid.T, n int, label string) []bool {
 	return res
 }
 
+var (
+	foldWidths     = []int{127, 128, 129, 255, 256, 257, 511, 512, 513, 1023, 1024, 1025, 2047, 2048, 2049, 4095, 4096, 4097}
+	foldWidthsHuge = []int{8191, 8192, 8193, 16385, 65535, 65536, 65537}
+)
+
 var otKinds = []string{"co", "co", "cot", "cot-malicious", "rsa"}
 
 func genCase(t *rapid.T) Case {
@@ -152,6 +157,26 @@ func genCase(t *rapid.T) Case {
 			t.Fatalf("harness: compile %s: %v", cs.Prog, err)
 		}
 		nx, ny = int(c.Inputs[0].Type.Bits), int(c.Inputs[1].Type.Bits)
+	} else if kind == 1 && rapid.IntRange(0, 4).Draw(t, "fold") == 0 {
+		// Fold circuits: every input wire of both parties reaches an
+		// output; input widths around the block sizes of label
+		// generation, label transfer and OT extension, up to beyond
+		// 2^16 wires.
+		tab := foldWidths
+		if rapid.IntRange(0, 2).Draw(t, "foldhuge") == 0 {
+			tab = foldWidthsHuge
+		}
+		nx = tab[gen.Uniform(t, len(tab), "foldx")]
+		ny = tab[gen.Uniform(t, len(tab), "foldy")]
+		if rapid.Bool().Draw(t, "foldsmallside") {
+			if rapid.Bool().Draw(t, "foldsmallx") {
+				nx = rapid.IntRange(1, 9).Draw(t, "foldnx")
+			} else {
+				ny = rapid.IntRange(1, 9).Draw(t, "foldny")
+			}
+		}
+		c := gen.DrawFold(t, []int{nx, ny}, rapid.IntRange(1, 4).Draw(t, "foldouts"))
+		cs.Circ = &c
 	} else {
 		o := gen.CircOpts{MinArgs: 2, MaxArgs: 2, MaxWidth: 9, MaxGates: 60,
 			MaxOuts: 4, MaxOutWidth: 5}
@@ -175,6 +200,10 @@ func genCase(t *rapid.T) Case {
 	cs.OT = rapid.SampledFrom(otKinds).Draw(t, "ot")
 	if ny > 10 && cs.OT == "rsa" {
 		cs.OT = "co"
+	}
+	if ny > 3000 && cs.OT == "co" {
+		// One base OT per wire would take tens of seconds.
+		cs.OT = "cot"
 	}
 	if ny > 1024 && rapid.Bool().Draw(t, "wide_malicious") {
 		// Several check blocks of the malicious-mode extension.
@@ -342,6 +371,12 @@ func run(cs Case) ev.Outcome {
 	}
 	if ny > 1024 {
 		classes = append(classes, "evaluator-input>1024bits")
+	}
+	if nx := int(circ.Inputs[0].Type.Bits); nx > 4096 {
+		classes = append(classes, "garbler-input>4096bits")
+	}
+	if int(circ.Inputs[0].Type.Bits)+int(circ.Inputs[1].Type.Bits) > 65536 {
+		classes = append(classes, "input-wires>65536")
 	}
 	if len(cs.FragsGE) > 0 || len(cs.FragsEG) > 0 {
 		classes = append(classes, "fragmented")
